@@ -77,6 +77,10 @@ def run_mutant(m):
                     _, p_, key, kind = line.split("\t", 3)
                     fired.append((p_, key, kind))
         res["fired"] = fired
+        if any(kind == "crash" for (_, _, kind) in fired):
+            res["status"] = "error"
+            res["detail"] = "a rule crashed: " + "\n".join(o[-1500:] for o in outs)
+            return res
         if not m["expects"]:
             # behaviour-preserving edit: any new violation is a false alarm
             new_v = [(fp, fk) for (fp, fk, kind) in fired if kind.startswith("new")]
